@@ -30,7 +30,8 @@ theorem source_releases_deferred : (factHolds "deferClose" && factHolds "deferRe
 
 /-- the lifecycle control flow the transition system `LS` models: Stop = close listeners, wait for the accept
 loops, close the connections, wait for their goroutines; accept loops close their own listener only; a connection
-is registered before its goroutine is started and the TLS handshake runs inside that goroutine -/
+is registered before its goroutine is started and the TLS handshake runs inside that goroutine; the goroutines
+Start spawns read no listener or TLS-configuration field of the server (they own the values they were started with) -/
 theorem source_lifecycle_matches_transition_system : lifecycleFactsOK = true := by decide
 
 /-- the password gate of command dispatch: the authorization check precedes the single call of the executor, and its
